@@ -2,7 +2,7 @@
 From Coq Require Import List Arith ZArith Bool.
 Import ListNotations.
 From PF Require Import Arr Net SweepDown SweepUp Rank Fill FillSpec Stream Ops OpsSpec.
-From PF Require Import GenLoopsEq.
+From PF Require Import GenLoopsEq GenOpsEq.
 From PFG Require Import GenLoops.
 Local Open Scope Z_scope.
 
@@ -111,3 +111,13 @@ Theorem gen_fillnodata_upstream_eq : forall ds sq data nodata, length data = len
   gen_fillnodata_upstream ds sq data nodata = fillnodata_upstream ds sq data nodata.
 Proof. exact GenLoopsEq.gen_fillnodata_upstream_eq. Qed.
 Print Assumptions gen_fillnodata_upstream_eq.
+(* the downstream fill (two arrays in the source: values and "holds a value" flags; one array of pairs in the model; the
+   option how = 'min' | 'max' | 'sum' is 0 | 1 | 2) and the height above the nearest drain *)
+Theorem gen_fillnodata_downstream_eq : forall ds sq data nodata how,
+  gen_fillnodata_downstream ds sq data nodata how = fillnodata_downstream ds sq data nodata how.
+Proof. exact GenOpsEq.gen_fillnodata_downstream_eq. Qed.
+Print Assumptions gen_fillnodata_downstream_eq.
+Theorem gen_hand_eq : forall ds sq drain elv, length drain = length ds ->
+  gen_height_above_nearest_drain ds sq drain elv = hand ds sq drain elv.
+Proof. exact GenOpsEq.gen_hand_eq. Qed.
+Print Assumptions gen_hand_eq.
